@@ -99,7 +99,9 @@ class Ctx:
             cmd += ['-simulate', simulate]
         cmd += (extra or []) + [os.path.join(d, module + '.tla')]
         env = dict(os.environ)
-        env['JAVA_TOOL_OPTIONS'] = (env.get('JAVA_TOOL_OPTIONS', '') + ' -Xss512m').strip()
+        jtmp = os.path.join(self.work, 'jtmp')
+        os.makedirs(jtmp, exist_ok=True)   # TLC unpacks its standard modules into java.io.tmpdir and leaves them there
+        env['JAVA_TOOL_OPTIONS'] = (env.get('JAVA_TOOL_OPTIONS', '') + ' -Xss512m -Djava.io.tmpdir=' + jtmp).strip()
         t = time.time()
         with open(outp, 'w') as f:
             p = subprocess.run(cmd, cwd=d, env=env, stdout=f, stderr=subprocess.STDOUT)
